@@ -9,8 +9,16 @@
 #include <utility>
 #include <rime/common.h>
 #include <rime/deployer.h>
+#include <rime/verif_hooks.h>
 
 namespace rime {
+
+#ifdef RIME_VERIF
+namespace verif {
+std::atomic<YieldHook> yield_hook{nullptr};
+std::atomic<TaskLogHook> task_log_hook{nullptr};
+}  // namespace verif
+#endif  // RIME_VERIF
 
 Deployer::Deployer()
     : shared_data_dir("."),
@@ -55,11 +63,13 @@ bool Deployer::ScheduleTask(const string& task_name, TaskInitializer arg) {
 }
 
 void Deployer::ScheduleTask(an<DeploymentTask> task) {
+  RIME_VERIF_YIELD("schedule_task");
   std::lock_guard<std::mutex> lock(mutex_);
   pending_tasks_.push(task);
 }
 
 an<DeploymentTask> Deployer::NextTask() {
+  RIME_VERIF_YIELD("next_task");
   std::lock_guard<std::mutex> lock(mutex_);
   if (!pending_tasks_.empty()) {
     auto result = pending_tasks_.front();
@@ -72,34 +82,43 @@ an<DeploymentTask> Deployer::NextTask() {
 }
 
 bool Deployer::HasPendingTasks() {
+  RIME_VERIF_YIELD("has_pending_tasks");
   std::lock_guard<std::mutex> lock(mutex_);
   return !pending_tasks_.empty();
 }
 
 bool Deployer::Run() {
   LOG(INFO) << "running deployment tasks:";
+  RIME_VERIF_YIELD("run.enter");
   message_sink_("deploy", "start");
   int success = 0;
   int failure = 0;
   do {
     while (auto task = NextTask()) {
+      RIME_VERIF_YIELD("run.before_task");
       try {
+        RIME_VERIF_TASK_LOG(task.get(), 0, failure);
         if (task->Run(this))
           ++success;
         else
           ++failure;
+        RIME_VERIF_TASK_LOG(task.get(), 1, failure);
       } catch (const std::exception& ex) {
         ++failure;
+        RIME_VERIF_TASK_LOG(task.get(), 2, failure);
         LOG(ERROR) << "Error deploying: " << ex.what();
       }
       // boost::this_thread::interruption_point();
+      RIME_VERIF_YIELD("run.after_task");
     }
     LOG(INFO) << success + failure << " tasks ran: " << success << " success, "
               << failure << " failure.";
     message_sink_("deploy", !failure ? "success" : "failure");
     // new tasks could have been enqueued while we were sending the message.
     // before quitting, double check if there is nothing left to do.
+    RIME_VERIF_YIELD("run.before_final_check");
   } while (!FinishWork());
+  RIME_VERIF_YIELD("run.exit");
   return !failure;
 }
 
@@ -108,6 +127,7 @@ bool Deployer::Run() {
 // finished, so that tasks scheduled from now on are run by a new work thread
 // instead of being left in the queue of one that is about to exit.
 bool Deployer::FinishWork() {
+  RIME_VERIF_YIELD("finish_work");
   std::lock_guard<std::mutex> lock(mutex_);
   if (!pending_tasks_.empty())
     return false;
@@ -116,6 +136,7 @@ bool Deployer::FinishWork() {
 }
 
 bool Deployer::StartWork(bool maintenance_mode) {
+  RIME_VERIF_YIELD("start_work.enter");
   {
     std::lock_guard<std::mutex> lock(mutex_);
     if (working_) {
@@ -129,7 +150,9 @@ bool Deployer::StartWork(bool maintenance_mode) {
     working_ = true;
   }
   // the previous work thread, if any, has finished its last task.
+  RIME_VERIF_YIELD("start_work.join");
   JoinWorkThread();
+  RIME_VERIF_YIELD("start_work.launch");
 #ifdef RIME_NO_THREADING
   LOG(INFO) << "running " << pending_tasks_.size() << " tasks in main thread.";
   return Run();
